@@ -116,7 +116,7 @@ class SubregionsProfile(HeapProfile):
         "in-place?, fault kind, outcome); non-trivial = at least 2 steps and at least one history/fault/storage oracle evaluation"
     )
 
-    def draw_config(self, rng):
+    def _draw_config(self, rng):
         return {
             "ndim": rng.choice([1, 2, 2, 3, 3, 4]),
             "family": rng.choice(["dyadic", "nm", "nm"]),
